@@ -1,5 +1,5 @@
 use crate::{
-    fragment::{Bounds, Line, Rect},
+    fragment::{Arc, Bounds, Line, Rect},
     Fragment,
 };
 
@@ -157,7 +157,8 @@ fn is_rounded_rect(fragments: &[&Fragment]) -> (bool, Option<f32>) {
             let line_a2 = fragments[a2].as_line().expect("expecting a line");
             let line_b2 = fragments[b2].as_line().expect("expecting a line");
             let passed = line_a1.is_aabb_perpendicular(line_b1)
-                && line_a2.is_aabb_perpendicular(line_b2);
+                && line_a2.is_aabb_perpendicular(line_b2)
+                && is_closed_rounded_box(fragments, arc_radius);
             (passed, Some(arc_radius))
         } else {
             (false, None)
@@ -165,6 +166,58 @@ fn is_rounded_rect(fragments: &[&Fragment]) -> (bool, Option<f32>) {
     } else {
         (false, None)
     }
+}
+
+/// the 4 lines and the 4 arcs must be exactly the outline of their common
+/// bounding box: each line is a side shortened by the radius on both ends
+/// and each arc joins the ends of two neighboring sides
+fn is_closed_rounded_box(fragments: &[&Fragment], radius: f32) -> bool {
+    let lines: Vec<&Line> =
+        fragments.iter().filter_map(|frag| frag.as_line()).collect();
+    let arcs: Vec<&Arc> =
+        fragments.iter().filter_map(|frag| frag.as_arc()).collect();
+    if lines.len() != 4 || arcs.len() != 4 {
+        return false;
+    }
+    let points = fragments.iter().flat_map(|frag| {
+        let (p1, p2) = frag.bounds();
+        [p1, p2]
+    });
+    let (min_x, max_x) = points
+        .clone()
+        .fold((f32::MAX, f32::MIN), |(lo, hi), p| (lo.min(p.x), hi.max(p.x)));
+    let (min_y, max_y) = points
+        .fold((f32::MAX, f32::MIN), |(lo, hi), p| (lo.min(p.y), hi.max(p.y)));
+    let r = radius;
+    let is_side = |x1: f32, y1: f32, x2: f32, y2: f32| {
+        lines.iter().any(|line| {
+            line.start.x == x1
+                && line.start.y == y1
+                && line.end.x == x2
+                && line.end.y == y2
+        })
+    };
+    let is_corner = |x1: f32, y1: f32, x2: f32, y2: f32| {
+        arcs.iter().any(|arc| {
+            arc.radius == r
+                && ((arc.start.x == x1
+                    && arc.start.y == y1
+                    && arc.end.x == x2
+                    && arc.end.y == y2)
+                    || (arc.start.x == x2
+                        && arc.start.y == y2
+                        && arc.end.x == x1
+                        && arc.end.y == y1))
+        })
+    };
+    is_side(min_x + r, min_y, max_x - r, min_y)
+        && is_side(min_x + r, max_y, max_x - r, max_y)
+        && is_side(min_x, min_y + r, min_x, max_y - r)
+        && is_side(max_x, min_y + r, max_x, max_y - r)
+        && is_corner(min_x + r, min_y, min_x, min_y + r)
+        && is_corner(max_x - r, min_y, max_x, min_y + r)
+        && is_corner(min_x, max_y - r, min_x + r, max_y)
+        && is_corner(max_x, max_y - r, max_x - r, max_y)
 }
 
 /// return the index of the fragments that are right angle arc
